@@ -16,13 +16,10 @@ Proof. vm_compute. repeat split. Qed.
 Lemma gen_cache_bounds : min_cache_ttl = 5 * 1000000000 /\ max_cache_ttl = 24 * 3600 * 1000000000.
 Proof. vm_compute. repeat split. Qed.
 
-(* the answer cache's positive store is built with (minTTL, maxTTL) and those are dnsutil's constants *)
-Definition ascii_dnsutil_max : list N := [100;110;115;117;116;105;108;46;77;97;120;67;97;99;104;101;84;84;76]%N.
-Definition ascii_dnsutil_min : list N := [100;110;115;117;116;105;108;46;77;105;110;67;97;99;104;101;84;84;76]%N.
-Definition ascii_min_max : list N := [109;105;110;84;84;76;44;32;109;97;120;84;84;76]%N.
-Lemma gen_cache_bounds_src :
-  cache_max_ttl_src = [ascii_dnsutil_max] /\ cache_min_ttl_src = [ascii_dnsutil_min] /\ positive_cache_bounds_src = [ascii_min_max].
-Proof. vm_compute. repeat split. Qed.
+(* the answer cache's own bounds are dnsutil's constants (cache.New builds the positive store with them;
+   that construction is tied by the driver's admission cases) *)
+Lemma gen_cache_bounds_src : cache_max_ttl = max_cache_ttl /\ cache_min_ttl = min_cache_ttl.
+Proof. vm_compute. split; reflexivity. Qed.
 
 (* TTLManager.Calculate, as translated from the source, is the clamp *)
 Lemma gen_TTLManager_Calculate : forall tm x, T_TTLManager_min tm <= T_TTLManager_max tm ->
@@ -169,6 +166,39 @@ Lemma min_cut_time : forall a b,
 Proof.
   intros [[ta ka]|] [[tb kb]|]; cbn; try reflexivity.
   destruct (Z.ltb_spec tb ta); cbn; f_equal; lia.
+Qed.
+
+(* resolver.minNonZero / resolver.minCut as translated from the source (an instant is a Z, the zero
+   time.Time is 0; real instants are non-zero) are the model's functions *)
+Definition ot (x : option Z) : Z := match x with Some t => t | None => 0 end.
+Definition nz (x : option Z) : Prop := forall t, x = Some t -> t <> 0.
+
+Lemma gen_minNonZero : forall a b, nz a -> nz b -> go_minNonZero (ot a) (ot b) = ot (min_nonzero a b).
+Proof.
+  intros [x|] [y|] Ha Hb; unfold go_minNonZero; cbn.
+  - specialize (Ha x eq_refl). specialize (Hb y eq_refl).
+    destruct (Z.eqb_spec x 0); [contradiction|]. destruct (Z.eqb_spec y 0); [contradiction|].
+    destruct (x <? y); reflexivity.
+  - specialize (Ha x eq_refl). destruct (Z.eqb_spec x 0); [contradiction|]. reflexivity.
+  - reflexivity.
+  - reflexivity.
+Qed.
+
+(* keys: any encoding [kf] of delegation identities; an unbounded cut carries whatever key it carries *)
+Lemma gen_minCut : forall (kf : zone -> N) a b ka kb,
+  nz (cut_time a) -> nz (cut_time b) ->
+  (forall t z, a = Some (t, z) -> ka = kf z) -> (forall t z, b = Some (t, z) -> kb = kf z) ->
+  let r := go_minCut (ot (cut_time a)) ka (ot (cut_time b)) kb in
+  fst r = ot (cut_time (min_cut a b)) /\ (forall t z, min_cut a b = Some (t, z) -> snd r = kf z).
+Proof.
+  intros kf [[ta za]|] [[tb zb]|] ka kb Ha Hb Hka Hkb; unfold go_minCut; cbn.
+  - specialize (Ha ta eq_refl). specialize (Hb tb eq_refl).
+    destruct (Z.eqb_spec ta 0); [contradiction|]. destruct (Z.eqb_spec tb 0); [contradiction|].
+    destruct (tb <? ta); cbn; split; try reflexivity; intros t z E; inversion E; subst; eauto.
+  - specialize (Ha ta eq_refl). destruct (Z.eqb_spec ta 0); [contradiction|]. cbn.
+    split; [reflexivity|]. intros t z E; inversion E; subst; eauto.
+  - split; [reflexivity|]. intros t z E; inversion E; subst; eauto.
+  - split; [reflexivity|]. intros t z E; discriminate.
 Qed.
 
 (* ----------------------------------------------------- delegation cache *)
